@@ -360,4 +360,49 @@ def rule_copy(ctx) -> RuleResult:
     return res
 
 
-RULES = [rule_keys, rule_prop, rule_copy]
+def rule_store(ctx) -> RuleResult:
+    res = RuleResult(
+        "C20.STORE",
+        "C20",
+        "the metadata setters that record the links (BaseEMSurvey.metadata, BaseElectrode.metadata) reach the store — "
+        "`self._metadata = ...` followed by update_attribute, or the delegation to the base setter — on every path that "
+        "returns normally: no value-dependent early return (the links are always written on both entities, even when the "
+        "in-memory dictionaries already look equal because they are shared)",
+        floor=2,
+    )
+    p = ctx.p
+    from ..cfg import CFG
+    from ..kinds import reach
+
+    for cname in ("BaseEMSurvey", "BaseElectrode"):
+        K = p.cls(cname)
+        pr = K.props.get("metadata")
+        if pr is None or pr.setter is None or pr.setter.cls is not K:
+            raise AnalysisError(f"anchor {cname}.metadata setter not found")
+        st = pr.setter
+        sn = st.self_name or "self"
+        g = CFG(st.node)
+
+        def stores(n):
+            a = n.ast
+            if a is None or isinstance(a, (list, ast.If, ast.For, ast.While, ast.With, ast.Try)):
+                return False
+            for x in ast.walk(a):
+                if isinstance(x, ast.Call) and isinstance(x.func, ast.Attribute) and x.func.attr == "fset" and "metadata" in unparse(x.func):
+                    return True
+                if isinstance(x, ast.Call) and isinstance(x.func, ast.Attribute) and x.func.attr == "update_attribute" and x.args and unparse(x.args[0]) == sn:
+                    return True
+            return False
+
+        ok = g.exit not in reach(g, [g.entry], avoid=stores)
+        res.inst(f"{cname}.metadata setter: every normal exit passes the store / base-setter delegation", nontrivial=True, ok=ok)
+        if not ok:
+            rets = [n for n in ast.walk(st.node) if isinstance(n, ast.Return)]
+            line = rets[0].lineno if rets else st.node.lineno
+            res.find(cname, "metadata", "a path returns without storing / persisting the metadata", f"{st.module.relpath}:{line}",
+                     "the setter can return before the metadata is handed to the writer: the link setters give both partners the same "
+                     "dictionary object, so an equality (or similar) shortcut sees no change and the partner's file keeps the old identifiers")
+    return res
+
+
+RULES = [rule_keys, rule_prop, rule_copy, rule_store]
